@@ -9,6 +9,7 @@ THEOREMS = ["at_most_one_terminal", "request_located", "active_owned", "exactly_
             "parked_only_while_dial_owed", "dial_answer_settles", "response_matches",
             "responder_sees_once", "inbound_delivered", "inbound_bound", "cancel_effect", "outcome_translation_total",
             "error_kind_translation", "handle_stream_faithful", "request_ids_and_channel", "answer_at_most_once"]
+CHANNEL_SIZE = 4096     # DEFAULT_CHANNEL_SIZE (checked against the source through CONST_TABLE / Props.C13)
 CONST_TABLE = [
     ("RR_COMMAND_CHANNEL_SIZE", "src/lib.rs", r"const DEFAULT_CHANNEL_SIZE: usize = (\d+)usize;", 4096),
 ]
@@ -65,6 +66,14 @@ ASSUMPTIONS = ["request and substream ids come from fetch_add counters and are n
 KEEP_PREFIX = 1
 
 PEERS = [1, 2, 3, 4]
+SUBFAIL_KINDS = ["closed", "closed", "unsupported", "unsupported", "notconn", "timeout", "notconn-yamux", "notconn-neg",
+                 "notconn-ms", "reset", "reset-yamux", "reset-neg", "reset-ms", "clogged"]
+# `ev subfail r<k> <kind>`: the failure the user must see
+SUBFAIL_WORD = {"closed": "open-error:closed", "unsupported": "unsupported", "notconn": "conn-closed",
+                "notconn-yamux": "conn-closed", "notconn-neg": "conn-closed", "notconn-ms": "conn-closed",
+                "timeout": "open-error:negotiation-timeout", "reset": "open-error:io", "reset-yamux": "open-error:yamux",
+                "reset-neg": "open-error:negotiation", "reset-ms": "open-error:negotiation", "clogged": "open-error:clogged"}
+MGR_VIEWS = ["unknown", "noaddr", "disconnected", "redial", "dialing", "opening", "connected"]
 
 
 def payload(length, fill):
@@ -138,27 +147,49 @@ def gen_case(rng, n_ops):
             return rng.randrange(max(0, len(sends) - 4), len(sends))
         return rng.randrange(len(sends))
 
+    def note_sent(p, mode):
+        k = len(sends)
+        sends.append(p)
+        if conns.get(p):
+            phase[k] = "opening"
+        elif mode == "dial" and view.get(p, "disconnected" if 1 <= p <= 3 else "unknown") in (
+                "disconnected", "dialing", "opening", "redial"):
+            phase[k] = "dialing"
+        else:
+            phase[k] = "done"
+
     def send(p, mode, burst):
         for _ in range(burst):
             k = len(sends)
+            # every API variant: try_send_request / send_request, with and without fallback
+            suffix = " async" if rng.random() < 0.3 else ""
             if rng.random() < 0.15:
                 ops.append(f"sendfb {p} {pick_len(rng, mx)} {k % 256} {mode} {rng.choice([1, 2])} "
-                           f"{pick_len(rng, mx)} {(k + 77) % 256}")
+                           f"{pick_len(rng, mx)} {(k + 77) % 256}{suffix}")
             else:
-                ops.append(f"send {p} {pick_len(rng, mx)} {k % 256} {mode}")
-            sends.append(p)
-            if conns.get(p):
-                phase[k] = "opening"
-            elif mode == "dial" and p != 4:
-                phase[k] = "dialing"
-            else:
-                phase[k] = "done"
+                ops.append(f"send {p} {pick_len(rng, mx)} {k % 256} {mode}{suffix}")
+            note_sent(p, mode)
+        # the transport manager handles the `DialPeer` command (or not yet)
+        if mode == "dial" and not conns.get(p) and view.get(p, "disconnected") == "disconnected" and 1 <= p <= 3 \
+                and rng.random() < 0.6:
+            mgr(p, "dialing")
+
+    def back_to_back(p, mode, count):
+        ops.append(f"burst {p} {count} {mode}" + (" fb" if rng.random() < 0.3 else ""))
+        for _ in range(count):
+            note_sent(p, mode)
 
     def establish(p):
         c = next_conn[0]
         next_conn[0] += 1
         dead = rng.random() < 0.06
+        # the transport manager learns about the connection before the protocols do
+        r = rng.random()
+        if r < 0.6:
+            mgr(p, "connected")
         ops.append(f"ev established {p} {c}" + (" dead" if dead else ""))
+        if 0.6 <= r < 0.85:
+            mgr(p, "connected")
         if len(conns.get(p, [])) < 2:
             first = not conns.get(p)
             conns.setdefault(p, []).append(c)
@@ -180,8 +211,29 @@ def gen_case(rng, n_ops):
                 # protocol has already failed the request
                 if was_open and rng.random() < 0.6:
                     late_answers.append(rng.choice(was_open))
+                # ... and the transport manager hears about it after the protocols
+                if view.get(p) == "connected" and rng.random() < 0.7:
+                    window(p)
+                elif rng.random() < 0.8:
+                    mgr(p, "disconnected")
 
     late_answers = []
+    view = {}             # peer -> the manager's view as scripted so far (a guess of what is consistent)
+
+    def mgr(p, v):
+        ops.append(f"mgr {p} {v}")
+        view[p] = v
+
+    def window(p):
+        """The protocol has been told that the last connection to `p` is gone, the transport manager has not
+        caught up yet (connections report to the protocols first): requests issued now see `AlreadyConnected`."""
+        send(p, "dial", rng.choice([1, 1, 2]))
+        if rng.random() < 0.5:
+            ops.append("state")
+        if rng.random() < 0.85:
+            mgr(p, "disconnected")
+            if rng.random() < 0.4:
+                send(p, "dial", 1)
 
     def respond(k):
         r = rng.random()
@@ -200,9 +252,15 @@ def gen_case(rng, n_ops):
     def inbound(p, burst):
         for _ in range(burst):
             hold = rng.random() < 0.5
-            ops.append(f"inbound {p} {pick_len(rng, min(mx, 70000))} {(200 + len(inb)) % 256}{' hold' if hold else ''}")
+            fb = f" fb={rng.choice([1, 2, 9])}" if rng.random() < 0.3 else ""
+            ops.append(f"inbound {p} {pick_len(rng, min(mx, 70000))} {(200 + len(inb)) % 256}{' hold' if hold else ''}{fb}")
             inb.append("held" if hold else "asked")
 
+    big = []
+    if rng.random() < 0.012:
+        big.append((rng.choice([4, 4, peer()]), "reject" if rng.random() < 0.7 else "dial", rng.choice([4097, 4100])))
+    if rng.random() < 0.012:
+        big.append((peer(), "dial", rng.choice([257, 300])))
     if rng.random() < 0.5:
         establish(focus[0])
     while len(ops) < n_ops:
@@ -211,7 +269,28 @@ def gen_case(rng, n_ops):
         blind = rng.random() < 0.2
         r = rng.random()
         if r < 0.20:
-            send(peer(), "dial" if rng.random() < 0.75 else "reject", rng.choice([1, 1, 2, 2, 3, 4]))
+            q = rng.random()
+            mode = "dial" if rng.random() < 0.75 else "reject"
+            if q < 0.03:
+                send(0, "dial", 1)                      # the local peer
+            elif q < 0.08:
+                back_to_back(peer(), mode, rng.choice([2, 3, 5]))
+            elif big:
+                # more than the command channel (4096) / the manager's channel (256) takes
+                back_to_back(*big.pop())
+            else:
+                send(peer(), mode, rng.choice([1, 1, 2, 2, 3, 4]))
+        elif r < 0.215:
+            # the manager's view changes on its own (another protocol dialed, addresses were forgotten, ...)
+            q = rng.random()
+            if q < 0.75:
+                mgr(peer(), rng.choice(["unknown", "noaddr", "disconnected", "redial", "dialing", "opening", "connected"]))
+            elif q < 0.85:
+                ops.append("mgr clog")
+            elif q < 0.97:
+                ops.append("mgr unclog")
+            else:
+                ops.append("mgr gone")
         elif r < 0.30:
             k = None if blind else some("dialing")
             establish(sends[k] if k is not None else peer())
@@ -224,7 +303,11 @@ def gen_case(rng, n_ops):
         elif r < 0.39:
             k = None if blind else some("dialing")
             p = sends[k] if k is not None else peer()
+            if rng.random() < 0.5:
+                mgr(p, "disconnected")
             ops.append(f"ev dialfail {p}")
+            if view.get(p) in ("dialing", "opening", "redial") and rng.random() < 0.8:
+                mgr(p, "disconnected")
             for k2, q in enumerate(sends):
                 if q == p and phase[k2] == "dialing":
                     phase[k2] = "done"
@@ -241,6 +324,8 @@ def gen_case(rng, n_ops):
                 extra += f" fb={rng.choice([1, 2, 3])}"
             if rng.random() < (0.4 if mx >= 300000 else 0.08):
                 extra += " noread"
+            elif rng.random() < 0.05:
+                extra += " broken"
             ops.append(f"ev subopen r{k}{extra}")
             if phase.get(k) == "opening":
                 phase[k] = "open"
@@ -248,7 +333,7 @@ def gen_case(rng, n_ops):
             k = any_rid() if blind else some("opening")
             if k is None:
                 continue
-            ops.append(f"ev subfail r{k} {rng.choice(['closed', 'unsupported', 'notconn', 'timeout'])}")
+            ops.append(f"ev subfail r{k} {rng.choice(SUBFAIL_KINDS)}")
             if phase.get(k) == "opening":
                 phase[k] = "done"
         elif r < 0.74:
@@ -257,7 +342,9 @@ def gen_case(rng, n_ops):
                 continue
             respond(k)
         elif r < 0.80:
-            k = any_rid() if blind or rng.random() < 0.4 else some("open")
+            q = rng.random()
+            # also: one of several requests that wait for the same dial
+            k = any_rid() if blind or q < 0.3 else some("dialing") if q < 0.5 else some("open")
             if k is None:
                 continue
             ops.append(f"cancel r{k}")
@@ -283,13 +370,15 @@ def gen_case(rng, n_ops):
             ks = [k for k, v in enumerate(inb) if v == "asked"]
             k = rng.choice(ks) if ks and not blind else (rng.randrange(len(inb)) if inb else 0)
             if rng.random() < 0.75:
-                ops.append(f"answer i{k} {pick_len(rng, mx)} {(50 + k) % 256}")
+                ops.append(f"answer i{k} {pick_len(rng, mx)} {(50 + k) % 256}" + (" feedback" if rng.random() < 0.4 else ""))
             else:
                 ops.append(f"refuse i{k}")
             if k < len(inb):
                 inb[k] = "done"
         else:
             ops.append("state")
+    # what is parked must be waiting for a dial the transport manager owes
+    ops.append("state")
     if rng.random() < 0.85:
         # drain: the environment answers everything it still owes
         for p in sorted(set(sends)):
@@ -297,7 +386,7 @@ def gen_case(rng, n_ops):
                 ops.append(f"ev dialfail {p}")
             else:
                 establish(p)
-        for k in range(len(sends)):
+        for k in range(max(0, len(sends) - 60), len(sends)):
             ops.append(f"ev subfail r{k} closed" if rng.random() < 0.6 else f"ev subopen r{k}")
         ops.append(f"advance {timeout}")
         ops.append(f"advance {timeout}")
@@ -321,7 +410,23 @@ def corpus():
             ["cfg max=400000 timeout=2 inmax=none", "ev established 1 0", "sendfb 1 3 0 reject 7 5 1", "ev subopen r0 fb=7",
              "respond r0 4 9", "sendfb 1 3 0 reject 7 5 1", "ev subopen r1 fb=8", "send 1 300000 3 reject",
              "ev subopen r2 noread", "cancel r2", "advance 1", "state", "advance 1", "state", "send 1 10 3 reject",
-             "ev subopen r3 noread", "cancel r3", "state"]]
+             "ev subopen r3 noread", "cancel r3", "state"],
+            # the window: the protocol has been told that the connection closed, the manager still says connected
+            ["cfg max=64 timeout=2 inmax=none", "mgr 1 connected", "ev established 1 0", "ev closed 1 0",
+             "send 1 4 1 dial", "state", "mgr 1 disconnected", "send 1 4 2 dial", "state", "ev dialfail 1", "state"],
+            # a peer the protocol never registered (every substream open failed), connected for the manager
+            ["cfg max=64 timeout=2 inmax=none", "send 1 3 0 dial", "mgr 1 dialing", "mgr 1 connected",
+             "ev established 1 0 dead", "state", "send 1 3 1 dial async", "state", "ev closed 1 0", "state"],
+            # every answer of dial(); cancel of one of three requests waiting for the same dial
+            ["cfg max=64 timeout=2 inmax=none", "send 0 1 0 dial", "send 4 1 1 dial", "mgr 2 noaddr", "send 2 1 2 dial",
+             "mgr 2 redial", "send 2 1 3 dial", "mgr 3 opening", "sendfb 3 1 4 dial 1 2 5", "mgr clog", "send 1 1 5 dial",
+             "mgr unclog", "send 1 1 6 dial", "send 1 1 7 dial async", "burst 1 2 dial", "cancel r7", "state", "mgr gone",
+             "send 1 1 8 dial", "mgr 1 dialing", "ev established 1 0", "ev subopen r6", "ev subopen r7 fb=3", "respond r6 2 2",
+             "respond r7 3 3", "ev dialfail 2", "ev dialfail 3", "state"],
+            # full command channel; inbound fallback names; feedback
+            ["cfg max=64 timeout=2 inmax=2", "burst 4 4097 reject", "ev established 1 0", "inbound 1 4 4 fb=2",
+             "answer i0 3 3 feedback", "answer i0 3 3 feedback", "inbound 1 4 5 hold fb=9", "feed i1", "answer i1 100 3 feedback",
+             "inbound 1 4 6", "refuse i2", "answer i2 1 1 feedback", "state"]]
 
 
 def mutate_case(rng, case, n):
@@ -378,6 +483,30 @@ def oracle(case, out):
     ninb = 0
     now = 0            # logical time
     opened_at = {}     # "rK" -> logical time its substream was handed to the protocol
+    view = {}          # peer -> the transport manager's view, as scripted (`mgr <p> <view>`)
+    clog = gone = False
+    owed = set()       # peers whose dial the transport manager has accepted / reported in progress and not concluded
+    live = {}          # peer -> number of live connections at the transport service
+    negotiated = {}    # "rK" -> fallback protocol its substream was negotiated with
+    feedback_of = {}   # "iK" -> True once a response was written for it
+
+    def view_of(p):
+        return view.get(p, "disconnected" if 1 <= p <= 3 else "unknown")
+
+    def dial_refusal(p):
+        """What `TransportManagerHandle::dial` must answer for the scripted view (None: Ok)."""
+        if p == 0:
+            return "self"
+        w = view_of(p)
+        if w in ("unknown", "noaddr"):
+            return "no-address"
+        if w == "connected":
+            return "already-connected"
+        if w in ("dialing", "opening", "redial"):
+            return None
+        if gone:
+            return "task-closed"
+        return "clogged" if clog else None
     for i, op in enumerate(case):
         if i >= len(out):
             break
@@ -403,7 +532,17 @@ def oracle(case, out):
             st = parse_state(o)
             if cfg["inmax"] is not None and int(st.get("inreqs", 0)) + int(st.get("outresps", 0)) > cfg["inmax"]:
                 v("inbound-bound", f"{st['inreqs']}+{st['outresps']} inbound requests in flight, limit {cfg['inmax']}", i)
-            if st.get("dials") == "" and st.get("outbound") == "" and st.get("futures") == "0":
+            # a request may only be parked while the transport manager owes the conclusion of a dial of its peer
+            for entry in filter(None, st.get("dials", "").split(",")):
+                pp, _, ids = entry.partition(":")
+                if pp.isdigit() and int(pp) not in owed:
+                    for k in filter(None, ids.strip("[]").split("+")):
+                        if not terminals.get(k):
+                            v("parked-without-dial", f"request {k} is parked in pending_dials for peer {pp} although the "
+                              f"transport manager has no dial of that peer to conclude (its view: {view_of(int(pp))}): nothing "
+                              f"will ever resolve it", i, request=k)
+            # quiescence is judged by what the environment owes, not by the protocol's own bookkeeping
+            if not owed and st.get("outbound") == "" and st.get("futures") == "0":
                 for k, r in reqs.items():
                     n = len(terminals.get(k, []))
                     if n == 0 and k not in cancelled:
@@ -411,12 +550,67 @@ def oracle(case, out):
                           f"substream open or request future is outstanding", i, request=k)
             continue
         res, calls, events = split_obs(o)
-        if (t[0] == "send" and len(t) == 5) or (t[0] == "sendfb" and len(t) == 8):
+        if t[-1] == "async" and t[0] in ("send", "sendfb"):
+            t = t[:-1]
+        if t[0] == "mgr" and res == "ok":
+            if t[1:] == ["clog"]:
+                clog = True
+            elif t[1:] == ["unclog"]:
+                clog = False
+            elif t[1:] == ["gone"]:
+                gone = True
+            elif len(t) == 3 and t[1].isdigit():
+                view[int(t[1])] = t[2]
+        elif (t[0] == "send" and len(t) == 5) or (t[0] == "sendfb" and len(t) == 8):
             k = f"r{nsend}"
             nsend += 1
             if res == k:
                 reqs[k] = {"peer": int(t[1]), "len": int(t[2]), "fill": int(t[3]), "mode": t[4], "step": i,
                            "fb": (int(t[5]), int(t[6]), int(t[7])) if t[0] == "sendfb" else None}
+                if t[4] == "dial":
+                    p = int(t[1])
+                    want = dial_refusal(p)
+                    for e in events:
+                        f = e.split(":")
+                        if f[:2] == ["failed", k] and f[2] == "dial-failed" and len(f) == 4 and f[3] != want:
+                            v("dial-answer", f"request {k}: the transport manager's view of peer {p} is {view_of(p)}, the "
+                              f"request failed with DialFailed({f[3]}) instead of {want or 'waiting for the dial'}", i, request=k)
+                    if f"dial:{p}" in calls or view_of(p) in ("dialing", "opening", "redial"):
+                        owed.add(p)
+        elif t[0] == "burst" and len(t) in (4, 5) and res.startswith("burst:ok="):
+            ok = int(res.split(":")[1].split("=")[1])
+            p = int(t[1])
+            for j in range(int(t[2])):
+                k = f"r{nsend}"
+                nsend += 1
+                if j < ok:
+                    reqs[k] = {"peer": p, "len": 1, "fill": j, "mode": t[3], "step": i,
+                               "fb": (1, 2, j) if len(t) == 5 else None}
+            if t[3] == "dial" and (f"dial:{p}" in calls or view_of(p) in ("dialing", "opening", "redial")):
+                owed.add(p)
+            room = CHANNEL_SIZE
+            if ok != min(int(t[2]), room):
+                v("command-channel", f"{ok} of {t[2]} back-to-back requests were accepted, the command channel takes {room}", i)
+        elif t[0] == "ev" and t[1] == "established" and res == "ok" and t[2].isdigit():
+            p = int(t[2])
+            if live.get(p, 0) == 0:
+                owed.discard(p)           # the protocol has been told: the dial is concluded
+            live[p] = live.get(p, 0) + 1
+        elif t[0] == "ev" and t[1] == "closed" and res == "ok" and t[2].isdigit():
+            live[int(t[2])] = max(0, live.get(int(t[2]), 0) - 1)
+        elif t[0] == "ev" and t[1] == "dialfail" and res == "ok" and t[2].isdigit():
+            owed.discard(int(t[2]))
+            for e in events:
+                f = e.split(":")
+                if f[0] == "failed" and f[2:] != ["dial-failed"]:
+                    v("error-kind", f"a dial failure was reported to the user as {':'.join(f[2:])}", i, request=f[1])
+        elif t[0] == "ev" and t[1] == "subfail" and res == "ok" and len(t) >= 4:
+            want = SUBFAIL_WORD.get(t[3], "open-error:closed")
+            for e in events:
+                f = e.split(":")
+                if f[:2] == ["failed", t[2]] and ":".join(f[2:]) != want:
+                    v("error-kind", f"substream open failure {t[3]!r} of {t[2]} was reported as {':'.join(f[2:])!r}, "
+                      f"expected {want!r}", i, request=t[2])
         elif t[0] == "cancel" and res == "ok":
             cancelled.add(t[1])
         elif t[0] == "ev" and t[1] == "subopen" and res.startswith("opened:"):
@@ -425,11 +619,19 @@ def oracle(case, out):
             opened_at.setdefault(k, now)
             if opened[k] > 1:
                 v("responder-saw-twice", f"a second substream was opened for request {k}", i, request=k)
-            view = res[len("opened:"):]
+            neg0 = next((int(a[3:]) for a in t[3:] if a.startswith("fb=") and a[3:].isdigit()), None)
+            if neg0 is not None:
+                negotiated[k] = neg0
+            view_ = res[len("opened:"):]
             r = reqs.get(k)
-            if r is not None and "noread" in t[3:]:
-                if view != "unread":
-                    v("request-mismatch", f"the far end of {k} is never read but the adapter reports {view!r}", i, request=k)
+            if r is not None and "broken" in t[3:]:
+                for e in events:
+                    f = e.split(":")
+                    if f[:2] == ["failed", k] and ":".join(f[2:]) not in ("open-error:io", "too-large"):
+                        v("error-kind", f"a failed write of {k} was reported as {':'.join(f[2:])!r}", i, request=k)
+            elif r is not None and "noread" in t[3:]:
+                if view_ != "unread":
+                    v("request-mismatch", f"the far end of {k} is never read but the adapter reports {view_!r}", i, request=k)
             elif r is not None:
                 # the request future writes the fallback payload iff the substream was negotiated with the
                 # request's own fallback protocol
@@ -438,8 +640,8 @@ def oracle(case, out):
                 if r["fb"] is not None and neg == r["fb"][0]:
                     ln, fl = r["fb"][1], r["fb"][2]
                 want = show(ln, fl) if ln <= cfg["max"] else "nothing"
-                if view != want:
-                    v("request-mismatch", f"the responder of {k} received {view!r}, the request was {want!r}", i, request=k)
+                if view_ != want:
+                    v("request-mismatch", f"the responder of {k} received {view_!r}, the request was {want!r}", i, request=k)
         elif t[0] == "respond" and res == "ok":
             supplied[t[1]] = (int(t[2]), int(t[3]))
         elif t[0] == "close" and res == "ok":
@@ -449,18 +651,32 @@ def oracle(case, out):
         elif t[0] == "inbound" and len(t) >= 4:
             k = f"i{ninb}"
             ninb += 1
-            inb[k] = {"len": int(t[2]), "fill": int(t[3])}
+            inb[k] = {"len": int(t[2]), "fill": int(t[3]),
+                      "fb": next((int(a[3:]) for a in t[4:] if a.startswith("fb=") and a[3:].isdigit()), None)}
         elif t[0] in ("answer", "refuse") and res.startswith("ok"):
             # only the first answer to a request the user has seen counts (later ones are ignored by the handle)
-            if t[1] in inb_seen and t[1] not in answered:
+            counts = t[1] in inb_seen and t[1] not in answered
+            delivered_now = False
+            if counts:
                 answered.add(t[1])
                 outstanding -= 1
                 if t[0] == "answer" and ":remote=" in res:
-                    view = res.split(":remote=")[1]
-                    frames = view.split(".")[0].split("~")[0]
+                    rview = res.split(":remote=")[1]
+                    frames = rview.split(".")[0].split("~")[0]
                     want = show(int(t[2]), int(t[3]))
+                    delivered_now = frames == want
                     if frames not in ("nothing", want):
                         v("answer-mismatch", f"the remote requester of {t[1]} received {frames!r}, the answer was {want!r}", i)
+            elif t[0] == "answer" and ":remote=" in res and t[1] in inb_seen:
+                # a second answer must not reach the remote
+                frames = res.split(":remote=")[1].split(".")[0].split("~")[0]
+                if "+" in frames:
+                    v("answered-twice", f"the remote requester of {t[1]} received two responses: {frames!r}", i)
+            if t[0] == "answer" and "feedback" in t[4:] and ":feedback=" in res:
+                fbk = res.split(":feedback=")[1].split(":")[0]
+                if (fbk == "sent") != delivered_now:
+                    v("feedback", f"the feedback channel of the answer to {t[1]} reports {fbk!r} although the response "
+                      f"{'reached' if delivered_now else 'did not reach'} the remote", i)
         for e in events:
             f = e.split(":")
             if f[0] in ("resp", "failed"):
@@ -472,6 +688,10 @@ def oracle(case, out):
                 if k not in reqs:
                     v("unknown-request", f"terminal event {e!r} for a request id that was never issued", i)
                 if f[0] == "resp":
+                    got_fb = int(f[4][2:]) if len(f) > 4 and f[4][2:].isdigit() else None
+                    if got_fb != negotiated.get(k):
+                        v("fallback-mismatch", f"response of {k} reported with fallback protocol {got_fb}, its substream was "
+                          f"negotiated with {negotiated.get(k)}", i, request=k)
                     got = ":".join(f[2:4])
                     if k not in supplied:
                         v("response-unsolicited", f"response {got} delivered for {k} but its responder never wrote a complete response", i,
@@ -492,6 +712,11 @@ def oracle(case, out):
                       f"{show(inb[k]['len'], inb[k]['fill'])}", i)
                 if k not in inb:
                     v("inbound-unknown", f"RequestReceived {e!r} for a substream the remote never opened", i)
+                else:
+                    got_fb = int(f[5][2:]) if len(f) > 5 and f[5][2:].isdigit() else None
+                    if got_fb != inb[k]["fb"]:
+                        v("fallback-mismatch", f"inbound request {k} reported with fallback protocol {got_fb}, the remote "
+                          f"negotiated {inb[k]['fb']}", i)
         if t[0] == "advance" and len(t) == 2 and res == "ok" and t[1].isdigit():
             # a silent peer: the request future gives up after at most one timeout for the send and one
             # for the response, whatever the far end does
@@ -518,8 +743,20 @@ def stats(case, out, acc):
         for e in events:
             f = e.split(":")
             bump(acc, "event:" + f[0] + (":" + ":".join(f[2:]) if f[0] == "failed" else ""))
-        if t and t[0] in ("send", "sendfb") and len(t) in (5, 8):
-            bump(acc, t[0] + ":" + t[4])
+        if t and t[0] in ("send", "sendfb") and len(t) in (5, 6, 8, 9):
+            bump(acc, t[0] + ":" + t[4] + (":async" if t[-1] == "async" else ""))
+            for e in events:
+                f = e.split(":")
+                if f[0] == "failed" and f[2] == "dial-failed" and len(f) == 4:
+                    bump(acc, "dial-answer:" + f[3])
+        if t and t[0] == "mgr":
+            bump(acc, "mgr:" + t[-1])
+        if t and t[0] == "burst" and res.startswith("burst:"):
+            bump(acc, "burst:" + ("clogged" if not res.endswith("clogged=0") else "fits"))
+        if t and t[0] == "answer" and ":feedback=" in res:
+            bump(acc, "feedback:" + res.split(":feedback=")[1].split(":")[0])
+        if t and t[0] == "state" and "dials=" in o and "dials= " not in o:
+            bump(acc, "state:parked")
         if t and t[:2] == ["ev", "subopen"] and res.startswith("opened:"):
             bump(acc, "subopen:" + ("noread" if "noread" in t[3:] else "read") +
                  (":fb" if any(a.startswith("fb=") for a in t[3:]) else ""))
